@@ -62,6 +62,36 @@ def jump_counter_rule(rep, u):
                             cnt = v["n"]
             desc = "the compression-pointer loop at line %s is bounded by a jump counter" % (fn.blocks[h].term or {}).get("ln")
             if cnt:
+                # the counter limits *jumps*: it grows only where a pointer is followed.  An increment that a plain label also
+                # reaches turns the anti-loop limit into a limit on the number of labels, and legal names of 64..127 labels are refused
+                jump_blocks = set()
+                for b in body:
+                    for e in fn.blocks[b].elems:
+                        if e.get("k") == "bin" and e["op"] == "=" and core.strip_casts(e["x"]).get("k") == "ref" and \
+                                fn.unit.type(core.strip_casts(e["x"])["t"])["k"] == "ptr" and \
+                                core.strip_casts(e["x"])["id"] not in core.ref_ids(e["y"]):
+                            jump_blocks.add(b)
+                inc_blocks = {bb for bb in body for e in fn.blocks[bb].elems for x, _ in walk(e)
+                              if x.get("k") == "un" and "++" in x["op"] and core.is_ref(x["e"], name=cnt)}
+                # blocks a non-jumping iteration passes: reachable from the head inside the body without entering a jump block
+                seen, st = set(), [h]
+                while st:
+                    b = st.pop()
+                    if b in seen or b in jump_blocks or b not in body:
+                        continue
+                    seen.add(b)
+                    st.extend(s_ for s_ in fn.blocks[b].rsucc() if s_ != h or True)
+                # a block counts for the label path if, from it, the head is reached again without a jump block in between
+                label_path = {b for b in seen if h in fn.reach_from([s_ for s_ in fn.blocks[b].rsucc()], avoid=list(jump_blocks)) or h in fn.blocks[b].rsucc()}
+                desc2 = "the jump counter of the loop at line %s grows only where a compression pointer is followed" % (fn.blocks[h].term or {}).get("ln")
+                shared = [b for b in inc_blocks if b in label_path and b not in jump_blocks and
+                          not any(fn.dominates(j, b) for j in jump_blocks)]
+                if shared:
+                    rep.violated("R-PROGRESS", fn, "jump-counter-scope", desc2, "'%s' is also incremented on the path of an ordinary label (block B%d): the "
+                                 "limit on pointer jumps becomes a limit on the number of labels, and legal names with more labels than the limit "
+                                 "are refused" % (cnt, shared[0]))
+                else:
+                    rep.proved("R-PROGRESS", fn, "jump-counter-scope", desc2, "increments in %d block(s), all behind a pointer jump" % len(inc_blocks))
                 rep.proved("R-PROGRESS", fn, "jump-counter", desc, "counter '%s' is incremented in the loop and compared with a constant" % cnt)
             else:
                 rep.violated("R-PROGRESS", fn, "jump-counter", desc, "no counter compared with a constant is incremented in the loop: "
